@@ -36,6 +36,19 @@ def run():
         if why:
             c.findings.append(Finding("bounded", "update_contract", why, {"scenario_seed": seed, "observed": why, "how_to_rerun": "cd /verif && /venv/bin/python -c 'from bounded import update_contract as u; print(u.one(%d))'" % seed}, "seed=%d" % seed))
             break
+    # a region helper whose default mode no shipped rule reaches (only the rule base token_case_subtype_indication): called directly
+    from bounded import helper_regions
+
+    hfiles = sorted(set(f for f in corpus.corpus_files() if "/tests/vhdlFile/" in f) | set(corpus.sample(200 if c.tier == "quick" else 10**6, c.seed + 18)))
+    hres = corpus.pmap(helper_regions.one, hfiles, chunksize=4)
+    c.bounded["helper_regions"] = {"evaluations": sum(x[1] for x in hres), "distinct_nontrivial": sum(1 for x in hres if x[1]), "rule": "real get_tokens_starting_with_token_and_ending_with_one_of_possible_tokens on corpus files (every classification fixture + a seeded sample) and two comment-inserting re-layouts of each, start / end classes drawn from the file, six flag combinations (all but 'neither bounding token'): every region is lAllObjects[start:start+len] by identity; non-trivial = file with at least one call"}
+    for p_, n_, why in hres:
+        if why:
+            import os
+
+            rel = os.path.relpath(p_, corpus.REPO)
+            c.findings.append(Finding("bounded", "helper_regions", "%s: %s" % (rel, why), {"file": p_, "observed": why, "how_to_rerun": "cd /verif && /venv/bin/python -c 'from bounded import helper_regions as h; print(h.one(%r))'" % p_}, "%s: %s" % (rel, why[:120])))
+            break
     if c.tier == "thorough":
         from pyvc.checklib import run_selftest
 
